@@ -43,7 +43,7 @@ type c17Case struct {
 	MaxPush  int     `json:"max_push,omitempty"`
 }
 
-var c17PushVars = []string{"plain", "pkce-oidc", "with-request_uri", "badsecret", "auth-mismatch", "auth-mismatch-request", "public-P", "form-post"}
+var c17PushVars = []string{"plain", "pkce-oidc", "with-request_uri", "badsecret", "auth-mismatch", "auth-mismatch-request", "public-P", "form-post", "bare", "auth-mismatch-query"}
 var c17Extras = []string{"none", "redirect_uri", "scope", "state", "response_type", "response_mode", "audience", "code_challenge", "nonce", "new-key", "fault-delete", "uri-trail-space"}
 
 const c17L = 300 // PAR context lifetime (server default 5 min)
@@ -106,8 +106,17 @@ func c17Run(c c17Case, res *WRes) (outcomes []string) {
 				form.Set("request_uri", prefix+"abc")
 			case "form-post":
 				form.Set("response_mode", "form_post")
+			case "bare":
+				// neither scope nor audience is pushed: the authorization proceeds with none, whatever the query adds
+				form.Del("scope")
+				form.Del("audience")
 			case "badsecret":
 				auth = BasicAuth("A", "wrong")
+			case "auth-mismatch-query":
+				// authenticates as B in the header, names A in the URL query of the POST (nothing in the body)
+				auth = w.AuthFor("B")
+				form.Del("client_id")
+				auth.Query = url.Values{"client_id": {"A"}}
 			case "auth-mismatch", "auth-mismatch-request":
 				// authenticates as B in the header, names A in the body
 				auth = w.AuthFor("B")
@@ -141,7 +150,7 @@ func c17Run(c c17Case, res *WRes) (outcomes []string) {
 				if p.valid || stored {
 					viol(i, "C17/push-accepted-without-client-authentication", "a push that failed client authentication was stored", "invalid_client", o.JSON)
 				}
-			case "auth-mismatch", "auth-mismatch-request":
+			case "auth-mismatch", "auth-mismatch-request", "auth-mismatch-query":
 				if p.valid {
 					// whose request is it? it must not be A's: A's secret was never shown
 					for k, s := range w.Mem.PARSessions {
@@ -315,7 +324,7 @@ func c17Run(c c17Case, res *WRes) (outcomes []string) {
 					viol(i, "C17/override/scope/extra="+op.Extra, fmt.Sprintf("token scope %v differs from the pushed scope %v", gs, ws), strings.Join(ws, " "), io.JSON)
 				}
 				auds, _ := io.JSON["aud"].([]any)
-				if len(auds) != 1 || auds[0] != p.form.Get("audience") {
+				if wa := p.form.Get("audience"); (wa == "" && len(auds) != 0) || (wa != "" && (len(auds) != 1 || auds[0] != wa)) {
 					viol(i, "C17/override/audience/extra="+op.Extra, fmt.Sprintf("token audience %v differs from the pushed audience %q", auds, p.form.Get("audience")), p.form.Get("audience"), io.JSON)
 				}
 				if io.Str("client_id") != p.client {
@@ -348,6 +357,40 @@ func c17Hist(seq []c17Op) string {
 		s[i] = o.String()
 	}
 	return strings.Join(s, " ; ")
+}
+
+// c17Split: enforcement is a property of the configuration, not of which endpoint handlers an instance happens to be
+// composed with: the authorization-serving instance of a split deployment (no push handler) refuses plain requests too,
+// and starts authorizations from request_uris pushed at the other instance (same store).
+type c17SplitCase struct {
+	Enforced bool `json:"enforced"`
+	Split    bool `json:"authorization_instance_without_push_handler"`
+}
+
+func c17SplitRun(c c17SplitCase, res *WRes) {
+	w := NewWorld(Profile{PAREnforced: c.Enforced, NoPARFactory: c.Split})
+	o := w.Authorize(url.Values{"client_id": {"A"}, "redirect_uri": {"https://A.example/cb"}, "state": {"state-plain-1234"}, "response_type": {"code"}, "scope": {"a"}}, AuthzOpts{})
+	res.Trans++
+	got := o.Param("code") != ""
+	res.class(fmt.Sprintf("split:enforced=%v/split=%v:plain-authorize:%v", c.Enforced, c.Split, got))
+	res.distinct(fmt.Sprintf("split%+v", c))
+	if c.Enforced && got {
+		res.violate(Violation{Property: "C17", Fingerprint: fmt.Sprintf("C17/enforced-but-plain-authorize-accepted/instance-without-push-handler=%v", c.Split), What: "pushed authorization is enforced but an authorization request without request_uri was accepted", Engine: "c17split", Case: c, Expected: "refusal", Observed: o.Location})
+	}
+	if !c.Enforced && !got {
+		res.note("sanity:plain-authorize-refused")
+	}
+}
+
+func c17Split(r *Run) {
+	res := &WRes{}
+	for _, enf := range []bool{false, true} {
+		for _, sp := range []bool{false, true} {
+			c17SplitRun(c17SplitCase{Enforced: enf, Split: sp}, res)
+			res.Evals++
+		}
+	}
+	r.Merge(res)
 }
 
 func c17Alphabet(npush, maxPush int, extras []string) []c17Op {
@@ -424,6 +467,15 @@ func init() {
 		c17Run(c, res)
 		return res.Viol, nil
 	}
+	replayFns["c17split"] = func(raw json.RawMessage) ([]Violation, error) {
+		var c c17SplitCase
+		if err := json.Unmarshal(raw, &c); err != nil {
+			return nil, err
+		}
+		res := &WRes{}
+		c17SplitRun(c, res)
+		return res.Viol, nil
+	}
 	registerCheck("C17", "model_checking", 120*time.Second, 30*time.Minute, func(r *Run) {
 		depth := 4
 		if !r.Quick() {
@@ -451,6 +503,7 @@ func init() {
 		if !r.MergeJobs(res) {
 			r.Exhaustive = false
 		}
+		c17Split(r)
 		if r.Agg.Notes["grant-compared"] == 0 {
 			r.HarnessErrs = append(r.HarnessErrs, "vacuous: no authorization was started from a pushed request")
 		}
